@@ -45,6 +45,19 @@ pub fn apply_try_from(f: &str, x: &Proj) -> Result<Proj, ForeignErr> {
                 Err(ForeignErr { name: "TooBig", msg: format!("{v} is outside -100..=100") })
             }
         }
+        ("try_port", Proj::Str(s)) => match s.parse::<u16>() {
+            Ok(p) => Ok(Proj::UInt(p as u128)),
+            Err(_) => Err(ForeignErr { name: "Sourced", msg: format!("`{s}` is not a valid port number") }),
+        },
+        // a container try_from whose function returns the CONTAINER's error type, built by the function itself
+        // (it has no location, so its report is at the origin); the derive then hands it over at the container
+        ("try_same_err", Proj::Str(s)) => {
+            if !s.is_empty() {
+                Ok(Proj::Struct("Wrap".into(), vec![("0".into(), Proj::Str(s.clone()))]))
+            } else {
+                Err(ForeignErr { name: "<same error type>", msg: "empty string (reported by the function itself)".into() })
+            }
+        }
         ("try_nonempty_vec", Proj::Seq(v)) => {
             if !v.is_empty() {
                 Ok(Proj::Seq(v.clone()))
